@@ -34,7 +34,11 @@ RULE = ("kinds: the variant list of enum ErrorKind read from kind.rs.  faultfree
         "(fault-free), or with exactly one fault of a known type (unknown long/short/word, required argument "
         "deleted, requirement of a present argument deleted, conflicting argument added, non-repeatable argument "
         "repeated, one value too few / none / too many, value outside the integer range or not a number, required "
-        "subcommand dropped), or with one help/version request.  random: vp/gen_cmd.py trees with every feature x "
+        "subcommand dropped), or with one help/version request; plus (gen_chain) 3-5 one-value options with a "
+        "`requires` chain of 2-3 arguments and `requires_if` rules on the arguments BEHIND the root of the chain x "
+        "lines over the values {v,w,z} (the rule's value on the root only / the carrier only / both / neither), "
+        "classified fault-free or MissingRequiredArgument from the documented reading of requires_if ('if THIS "
+        "argument has the value').  random: vp/gen_cmd.py trees with every feature x "
         "mutated lines.  sugg/dym/flag: near-miss spellings at edit distance 1-2 of defined names.  A case is "
         "non-trivial when the configuration is accepted and (fault streams) the line is rejected / (faultfree) "
         "has at least two tokens after the program name; distinct = distinct case text.")
@@ -73,7 +77,13 @@ LEVEL_TEXT = ("Machine-checked theorems (Coq 8.16, closed under the global conte
               "subcommand chain (built subcommand, tail of the line) the rule named by the kind is broken -- "
               "MissingRequiredArgument: a matcher whose explicit entries are all accounted for by tokens of the line / "
               "declared environment values (faithful) lacks an id that a declaratively stated requirement rule "
-              "(rule_requires / req_by, no validator tables) asks for; ArgumentConflict: two accounted-for ids with a "
+              "(rule_requires / req_by, no validator tables) asks for -- and (C10_requirement_set_exact, after the repair "
+              "of Command::unroll_arg_requires) the validator's requirement set IS the set of ids demanded by that rule, "
+              "both inclusions, for every command and matcher: requires/requires_if rules of an explicitly present "
+              "argument that hold of its own occurrence, closed under unconditional requires (C10_req_by_is_C03_ReqBy: "
+              "the same relation as C03's); C10_requires_if_chain_before_fix / _fixed: the pre-repair function demanded "
+              "y for `--aa v --bb w` under a.requires(b), b.requires_if(v,y), the repaired model accepts that line; "
+              "ArgumentConflict: two accounted-for ids with a "
               "declared conflict (C03's `declares`), an exclusive argument beside another, a repeated non-overriding Set "
               "argument, or a word/subcommand under args_conflicts_with_subcommands; TooMany/TooFew/WrongNumberOfValues: "
               "an argument named by a token of the line whose occurrence (values = pieces of tokens) has a count outside "
